@@ -1,20 +1,34 @@
 (* GenC20c.v — LATE file of C20 (compiled after GenC20.v, GenC20b.v, GenC20s.v, GenC20p.v, GenC20m.v): the headline theorems of
    C20.v restated for the REGENERATED constructors, from the equalities run_ctor gen_X = facade FX proved in those files. *)
 From Coq Require Import String.
-From Verif Require Import Base Sorter Value Seq Coll Pool PoolRun Params SetProofs AssocProofs Facade FacadeProofs ModuleLang ModuleSem ModuleFacts ModuleTactics GenModule GenC20 GenC20b GenC20s GenC20p GenC20m.
+From Verif Require Import Base Sorter Value Seq Coll Pool PoolRun Params SetProofs AssocProofs Facade FacadeProofs ModuleLang ModuleSem ModuleFacts ModuleTactics GenModule GenC20 GenC20b GenC20r GenC20s GenC20t GenC20p GenC20m.
 Open Scope Z_scope.
 Open Scope list_scope.
 
 (* ====================================================================================================== *)
 (* the headline theorems of C20.v restated for the REGENERATED constructors                                 *)
 (* ====================================================================================================== *)
+(* the Set constructor: its two halves (GenC20s.v with a collator, GenC20t.v without) *)
+Lemma set_post : forall args0 tk tv f s scr, length scr = GenC20s.Kset ->
+  result_of (exec args0 (30 + f) (ctx0 tk tv) (env_set s scr) (post_body gen_Set)) =
+  out_map FO (out_map FObj (finish_set tv s)).
+Proof.
+  intros args0 tk tv f s scr L. destruct (s_coll s) as [c|] eqn:E.
+  - exact (set_post_collator args0 tk tv f s scr c L E).
+  - exact (set_post_plain args0 tk tv f s scr L E).
+Qed.
+
+Theorem gen_Set_is_the_model : forall tk tv args, Forall size_ok args ->
+  run_ctor gen_Set tk tv args = out_map FO (facade FSet tk tv args).
+Proof. ctor_main gen_Set FSet env_set GenC20s.Kset set_step set_post. Qed.
+
 Definition gen_of (k : fkind) : gen_ctor :=
   match k with
   | FAssociation => gen_Association | FArray => gen_Array | FCatalog => gen_Catalog | FList => gen_List
   | FMap => gen_Map | FQueue => gen_Queue | FSet => gen_Set | FStack => gen_Stack
   end.
-(* the constructors whose equality with the model is proved for every argument list (Array: see the end of this file) *)
-Definition proved_kind (k : fkind) : Prop := k = FStack \/ k = FQueue \/ k = FList \/ k = FSet \/ k = FCatalog \/ k = FMap.
+(* every collection constructor (the Association is separate: its arguments are restricted by assoc_arg) *)
+Definition proved_kind (k : fkind) : Prop := k <> FAssociation.
 
 Lemma with_notation_ok : forall (P : arg -> Prop) pos args, P ANotation -> Forall P args -> Forall P (with_notation pos args).
 Proof.
@@ -25,9 +39,9 @@ Qed.
 Theorem gen_is_the_model : forall k tk tv args, proved_kind k -> Forall size_ok args ->
   run_ctor (gen_of k) tk tv args = out_map FO (facade k tk tv args).
 Proof.
-  intros k tk tv args [-> | [-> | [-> | [-> | [-> | ->]]]]] F;
-    [apply gen_Stack_is_the_model|apply gen_Queue_is_the_model|apply gen_List_is_the_model|apply gen_Set_is_the_model
-    |apply gen_Catalog_is_the_model|apply gen_Map_is_the_model]; exact F.
+  intros k tk tv args Hk F. destruct k; try congruence;
+    [apply gen_Array_is_the_model|apply gen_Catalog_is_the_model|apply gen_List_is_the_model|apply gen_Map_is_the_model
+    |apply gen_Queue_is_the_model|apply gen_Set_is_the_model|apply gen_Stack_is_the_model]; exact F.
 Qed.
 
 Theorem C20_gen_notation_is_transparent : forall k tk tv pos args, proved_kind k -> Forall size_ok args ->
@@ -59,11 +73,18 @@ Proof. intros pos a H. apply with_notation_ok; [exact I|]. constructor; [exact H
 Lemma ok2 : forall pos a b, size_ok a -> size_ok b -> Forall size_ok (with_notation pos [a; b]).
 Proof. intros pos a b H1 H2. apply with_notation_ok; [exact I|]. repeat constructor; assumption. Qed.
 
-Theorem C20_gen_no_data_is_Make : forall k tk tv pos, proved_kind k ->
+Theorem C20_gen_no_data_is_Make : forall k tk tv pos, proved_kind k -> k <> FArray ->
   run_ctor (gen_of k) tk tv (with_notation pos []) = out_map FO (out_map FObj (class_ctor k tv CMake)).
 Proof.
-  intros k tk tv pos Hk. transfer Hk (with_notation_ok size_ok pos [] I (Forall_nil _)).
-  rewrite facade_agrees_none; [reflexivity| |]; destruct Hk as [-> | [-> | [-> | [-> | [-> | ->]]]]]; discriminate.
+  intros k tk tv pos Hk Ha. transfer Hk (with_notation_ok size_ok pos [] I (Forall_nil _)).
+  rewrite facade_agrees_none; [reflexivity|exact Ha|exact Hk].
+Qed.
+
+Theorem C20_gen_array_requires_an_argument : forall tk tv pos,
+  run_ctor gen_Array tk tv (with_notation pos []) = Panic.
+Proof.
+  intros tk tv pos. rewrite gen_Array_is_the_model by (apply with_notation_ok; [exact I|constructor]).
+  rewrite facade_array_requires_argument. reflexivity.
 Qed.
 
 Theorem C20_gen_size_or_capacity : forall k tk tv n pos (as_int : bool), proved_kind k -> is_sized_kind k -> 0 <= n ->
